@@ -2,14 +2,18 @@
 (* Trace validation of real atomicfs.Marker executions over a crashable MemFS      *)
 (* (driver: vfs/atomicfs/zz_verif_proto_marker_test.go) against Marker.tla.         *)
 (*                                                                                  *)
-(* Strict = TRUE : every logged filesystem operation must be the next step of the   *)
-(*   Marker protocol (internal vocabulary), the real MemFS's unsynced entries must  *)
-(*   equal the model's children \ synced, and every ReadMarker on a crash clone must*)
-(*   equal the model's Locate on synced \cup keep.                                  *)
+(* Strict = TRUE : every logged filesystem operation (successful or with an injected*)
+(*   error) must be the next step of the Marker protocol (internal vocabulary), the *)
+(*   real MemFS's unsynced entries must equal the model's children \ synced, every  *)
+(*   directory listing must equal the model's, and every ReadMarker on a crash      *)
+(*   clone must equal the model's Locate on synced \cup keep.                       *)
 (* Strict = FALSE: only the property's own vocabulary is asserted - ReadMarker on   *)
 (*   every crash clone (op index n, survival subset keep) returns the value of the  *)
-(*   last returned Move or of the Move in progress; between calls the live          *)
-(*   directory reads the last returned value.  Filesystem events are skipped.       *)
+(*   last Move that returned nil, of a Move that returned an error since, or of the *)
+(*   Move in progress, and so would a scan of the clone's directory in ANY listing  *)
+(*   order (the listing is logged); between calls the live directory reads the last *)
+(*   acknowledged value (or that of a Move that failed since), again for any        *)
+(*   listing order.  Filesystem events are skipped.                                 *)
 (* A rejection under Strict that Strict = FALSE accepts is drift, not a violation.  *)
 EXTENDS Marker, Json
 
@@ -18,56 +22,76 @@ CONSTANTS Strict
 Trace == ndJsonDeserialize("trace.ndjson")
 
 VARIABLES l
-vars == <<l, children, synced, iter, cur, obsolete, pc, newf, oldf, committed, inflight, moves, crashes, fails>>
+vars == <<l, children, synced, iter, cur, obsolete, pc, newf, oldf, committed, inflight, maybe, lastfail, moves, crashes, fails, faults>>
 
 Ev == Trace[l]
 Is(o) == l <= Len(Trace) /\ Trace[l].op = o /\ l' = l + 1
 FileSet(s) == {<<s[i][1], s[i][2]>> : i \in 1..Len(s)}
-Keep == <<children, synced, iter, cur, obsolete, pc, newf, oldf, moves, crashes, fails>>
+Keep == <<children, synced, iter, cur, obsolete, pc, newf, oldf, moves, crashes, fails, faults>>
 
 TraceInit == l = 1 /\ MInit /\ TLCSet(1, 0)
 
 (* a fresh process locates the marker on a directory holding exactly `files` (all durable) *)
 Start == /\ Is("start")
          /\ children' = FileSet(Ev.files) /\ synced' = FileSet(Ev.files) /\ LocateOn(FileSet(Ev.files))
+         /\ Ev.val \in LocVals(FileSet(Ev.files))
          /\ (Strict => Ev.val = LocVal(FileSet(Ev.files)))
-         /\ committed' = Ev.val /\ inflight' = 0 /\ moves' = 0 /\ crashes' = 0 /\ fails' = 0
+         /\ committed' = Ev.val /\ inflight' = 0 /\ maybe' = {} /\ lastfail' = 0
+         /\ moves' = 0 /\ crashes' = 0 /\ fails' = 0 /\ faults' = 0
 
 Call == /\ Is("call")
         /\ (IF Strict
             THEN ((Ev.what = "move" /\ CallMove(Ev.v)) \/ (Ev.what = "removeobsolete" /\ CallRO))
-            ELSE (inflight' = (IF Ev.what = "move" THEN Ev.v ELSE inflight) /\ committed' = committed /\ UNCHANGED Keep))
+            ELSE (/\ inflight' = (IF Ev.what = "move" THEN Ev.v ELSE inflight)
+                  /\ UNCHANGED <<committed, maybe, lastfail>> /\ UNCHANGED Keep))
 
 Fs == /\ Is("fs")
       /\ (IF Strict
-          THEN \/ (Ev.kind = "create" /\ newf = <<Ev.it, Ev.v>> /\ Create)
-               \/ (Ev.kind = "syncfile" /\ SyncFile)
-               \/ (Ev.kind = "close" /\ CloseFile)
+          THEN \/ (Ev.kind = "create" /\ newf = <<Ev.it, Ev.v>> /\ Ev.ok /\ Create)
+               \/ (Ev.kind = "create" /\ newf = <<Ev.it, Ev.v>> /\ ~Ev.ok /\ CreateFail(Ev.made))
+               \/ (Ev.kind = "syncfile" /\ SyncFile(Ev.ok))
+               \/ (Ev.kind = "close" /\ pc = "close" /\ CloseFile(Ev.ok))
+               \/ (Ev.kind = "close" /\ pc = "closeerr" /\ CloseAfterErr)
                \/ (Ev.kind = "remove" /\ pc = "remove" /\ oldf = <<Ev.it, Ev.v>> /\ RemoveOld(Ev.ok))
                \/ (Ev.kind = "remove" /\ pc = "ro" /\ RORemove(<<Ev.it, Ev.v>>, Ev.ok))
-               \/ (Ev.kind = "syncdir" /\ SyncDir)
+               \/ (Ev.kind = "syncdir" /\ SyncDir(Ev.ok))
           ELSE UNCHANGED mvars)
 
+(* Move returned nil / an error / panicked (directory Sync error: the marker is dead, only crash clones follow) *)
 Ret == /\ Is("ret")
        /\ (IF Strict
-           THEN ((Ev.what = "move" /\ Ev.ok /\ RetMove) \/ (Ev.what = "removeobsolete" /\ RetRO /\ (Ev.ok <=> pc = "ro")))
-           ELSE ( /\ committed' = (IF Ev.what = "move" /\ Ev.ok THEN inflight ELSE committed)
-                  /\ inflight' = (IF Ev.what = "move" /\ Ev.ok THEN 0 ELSE inflight)
-                  /\ UNCHANGED Keep))
+           THEN \/ (Ev.what = "move" /\ Ev.ok /\ ~Ev.panic /\ RetMove)
+                \/ (Ev.what = "move" /\ ~Ev.ok /\ ~Ev.panic /\ RetMoveErr)
+                \/ (Ev.what = "move" /\ ~Ev.ok /\ Ev.panic /\ pc = "dead" /\ UNCHANGED mvars)
+                \/ (Ev.what = "removeobsolete" /\ ~Ev.panic /\ RetRO /\ (Ev.ok <=> pc = "ro"))
+           ELSE IF Ev.what = "move" /\ Ev.ok
+                THEN (committed' = inflight /\ inflight' = 0 /\ maybe' = {} /\ lastfail' = 0 /\ UNCHANGED Keep)
+                ELSE IF Ev.what = "move" /\ ~Ev.panic
+                THEN (maybe' = maybe \cup {inflight} /\ lastfail' = inflight /\ inflight' = 0 /\ committed' = committed /\ UNCHANGED Keep)
+                ELSE UNCHANGED mvars)
+
+(* LocateMarker again on the live directory, between calls *)
+Reloc == /\ Is("relocate")
+         /\ Ev.val \in Live /\ LocVals(FileSet(Ev.files)) \subseteq Live          \* C24
+         /\ (IF Strict
+             THEN (FileSet(Ev.files) = children /\ Ev.val = LocVal(children) /\ Relocate)
+             ELSE UNCHANGED mvars)
 
 (* crash clone taken after filesystem op n with exactly `keep` of the unsynced entries surviving; ReadMarker = res *)
 CrashRead == /\ Is("crashread")
              /\ Ev.res \in Allowed                                            \* C24
+             /\ LocVals(FileSet(Ev.files)) \subseteq Allowed                  \* C24, for any listing order
              /\ (Strict => /\ FileSet(Ev.unsynced) = children \ synced      \* MemFS crash model = CrashFS
                            /\ FileSet(Ev.keep) \subseteq children \ synced
+                           /\ FileSet(Ev.files) = synced \cup FileSet(Ev.keep)
                            /\ Ev.res = LocVal(synced \cup FileSet(Ev.keep)))
              /\ UNCHANGED mvars
 (* ReadMarker on the live filesystem between calls *)
-LiveRead == /\ Is("liveread") /\ Ev.res = committed
-            /\ (Strict => (pc = "idle" /\ Ev.res = LocVal(children)))
+LiveRead == /\ Is("liveread") /\ Ev.res \in Live /\ LocVals(FileSet(Ev.files)) \subseteq Live
+            /\ (Strict => (pc = "idle" /\ FileSet(Ev.files) = children /\ Ev.res = LocVal(children)))
             /\ UNCHANGED mvars
 
-TraceNext == Start \/ Call \/ Fs \/ Ret \/ CrashRead \/ LiveRead
+TraceNext == Start \/ Call \/ Fs \/ Ret \/ Reloc \/ CrashRead \/ LiveRead
 TraceSpec == TraceInit /\ [][TraceNext]_vars
 
 HWM == IF l - 1 > TLCGet(1) THEN TLCSet(1, l - 1) ELSE TRUE
